@@ -24,6 +24,10 @@ CHECKS = {
 }
 
 CHECKS.update({
+ "C07": dict(engine="detsim", category="exploration", design_ref="DESIGN.md 4.5",
+   technique="deterministic simulation with owned nondeterminism seams: the same logical tree is rebuilt under other Ref streams, per-map and per-process hash keys (getrandom custom backend, ahash random source) and construction histories; byte equality across environments and across worker processes; save/load fixed point",
+   text="Each seeded logical tree is materialised in the canonical environment and in 2-4 environments that differ only in nondeterminism or construction history, serialized with both codecs (binary x 3 compression modes, XML default and WriteUnknown) and compared byte for byte; every run index is executed a second time in another worker process under other per-process hash keys and the orchestrator compares the outputs; save(load(save(T))) must equal the next save. Sampling of trees, not exhaustive.",
+   note="Only Ok/Err class is compared for failing saves. std HashMap order inside rbx_reflection's database is not owned by the simulator (OS-seeded); a dependence on it would be seen as a cross-process mismatch but would not replay."),
  "C18": dict(engine="schedsim", category="exploration", design_ref="DESIGN.md 4.2",
    technique="deterministic simulation: seeded cooperative scheduler over real threads, yield point before every Arc/Weak/Mutex operation of the real SharedString code; invariants checked during the run; recorded schedule is the replay",
    text="Seeded search over interleavings (uniform, sticky and PCT-style strategies) of 2-4 thread programs of new/clone/drop/read/compare against the real SharedString and its real global intern table. Oracles during the run: content, equality/hash, all registered live handles with equal contents share one buffer, no deadlock or panic, table empty at quiescence. A failing schedule is shrunk and replayed from its recorded choice list. Sampling, not exhaustive.",
@@ -46,7 +50,7 @@ CHECKS.update({
    note="For decode operations only uniqueness and bookkeeping are asserted, not value fidelity (C01/C02). Clock values outside the window in which now() is documented to work are excluded. Known findings for DOMs produced by rbx_xml are listed in known_findings.json."),
 })
 
-PENDING = {k: 'check under construction in this round (deterministic simulation applies; see DESIGN.md section 4); not claimed until its check is registered' for k in ['C07']}
+PENDING = {k: 'check under construction in this round (deterministic simulation applies; see DESIGN.md section 4); not claimed until its check is registered' for k in []}
 
 def main():
     props = [json.loads(l) for l in open('/verif/properties.jsonl')]
